@@ -1,6 +1,7 @@
 import FGVerif.Driver.C14
 import FGVerif.Model.C15
 import FGVerif.Model.C15General
+import FGVerif.Model.C15Rc
 /-! driver operations for C15 -/
 namespace C15
 open SExp C13 C14
@@ -22,10 +23,13 @@ def asSample : SExp → Option (Canon × Canon × Canon)
     model's split of the pattern's labels (`halvesB`: exactly the same bonded pairs with the same scalar,
     non-zero labels — the totalised `orderOf` / `getD` of the `get_its` models below cannot hide a tuple label
     or a missing label left on a half); superposition (small and general `get_its`) as additional clauses;
-    for Diels-Alder samples also the reaction-centre shape -/
+    for Diels-Alder samples also the reaction-centre shape: `daCentreOk` (shape and explicit-valence bound; the
+    exhaustive test) AND `daCycleB x (findCycle x)`, the executable form of `C15.DAShape` — the statement of the
+    theorem `C15.da_rc_shape_thm` (`C15.daCycleB_sound`), so that the implementation's samples are held to the very
+    predicate the theorem proves of the model's -/
 def sampleOk (da : Bool) (x g h : Graph) : Bool :=
   balancedMappedB x g h && halvesB x g h && superpositionB x (getIts g h) && superGeneralB x g h &&
-  (!da || daCentreOk x)
+  (!da || (daCentreOk x && daCycleB x (findCycle x)))
 
 /-- the decidable hypotheses of `C15.superposition` / `balanced_mapped_of` / `halvesB_reaction` on a sample -/
 def hypB (x : Graph) : Bool :=
@@ -42,7 +46,7 @@ def hasBreaking (x : Graph) : Bool := x.edges.any fun e => match e.2.2.2 with | 
     Model/C15General.lean; Diels-Alder centre -/
 def sampleFlags (da : Bool) (x g h : Graph) : SExp :=
   .list [ofBool (balancedMappedB x g h && halvesB x g h), ofBool (superpositionB x (getIts g h) && superGeneralB x g h),
-         ofBool (!da || daCentreOk x)]
+         ofBool (!da || (daCentreOk x && daCycleB x (findCycle x)))]
 
 def ofSample (x : Graph) : SExp :=
   let gh := reaction x
